@@ -329,6 +329,13 @@ class Gen:
 
     def pred(self, d):
         r = self.rng.random()
+        if d > 0 and self.rng.random() < 0.15:
+            # nested positional predicate: x[k], x[last()], x[position() = k] inside a predicate
+            inner = self.rng.choice([('num', self.rng.choice(['1', '2', '3'])), ('call', 'last', []),
+                                     ('bin', self.rng.choice(['=', '<', '>=']), ('call', 'position', []), ('num', self.rng.choice(['1', '2'])))])
+            ax = self.rng.choice([None, None, 'descendant', 'following-sibling', 'preceding-sibling', 'ancestor', '@'])
+            t = '*' if ax != '@' else '*'
+            return ('path', '', [('/', ('step', ax, self.rng.choice([t, 'node()'] + ([self.rng.choice(NAMES)] if ax != '@' else [])), [inner]))])
         if r < 0.25: return ('num', self.rng.choice(['1', '2', '3', '1', '2', '1', '2', '0', '1.5', '10']))
         if r < 0.33: return ('call', 'last', [])
         if r < 0.45: return ('bin', self.rng.choice(['=', '<', '>', '<=', '>=', '!=']), ('call', 'position', []), self.rng.choice([('num', '1'), ('num', '2'), ('call', 'last', []), ('bin', '-', ('call', 'last', []), ('num', '1'))]))
@@ -625,23 +632,18 @@ def equal_key_siblings(rows):
 
 def classify(prop, rows, exprs_text, what=''):
     """-> (finding id, description) of the known finding that explains a failing case, or None.
-    Narrow by construction: each class names the document shape AND the expression shape."""
+    Narrow by construction: each class names the document shape AND the expression shape.
+    (D18 / D21 -- processing instructions with order key 0, sibling lookup by key -- were classes
+    here until the dom fixes 4f12942 / a4a0768; a PI document that fails now is a violation.)"""
     feats = set()
     for s in exprs_text:
         feats |= text_features(s)
     anomalies = doc_key_anomalies(rows) if rows else set()
-    sib = feats & {'axis:following', 'axis:following-sibling', 'axis:preceding', 'axis:preceding-sibling'}
-    if rows and has_pi(rows) and 'zero-key:Pi' in anomalies:
-        if sib and equal_key_siblings(rows) and prop in ('C06', 'C05', 'C07', 'C19'):
-            return ('D21', 'sibling axis in a document whose sibling lists contain equal order keys (two processing instructions): previous/next_sibling looks nodes up by key and cycles or skips')
-        return ('D18', 'document contains a processing instruction: XmlNode::order() is 0 for it, so it sorts first and several collapse under de-duplication')
-    if rows and ('zero-key:At' in anomalies or 'zero-key:Ns' in anomalies or 'zero-key:Tx' in anomalies):
-        uses_ns = 'axis:namespace' in feats
-        uses_dflt = 'zero-key:At' in anomalies and ('axis:attribute' in feats)
-        if uses_ns or uses_dflt:
-            return ('D19', 'namespace nodes / default attributes have order key 0 (or the key of an inherited declaration): they sort first and distinct ones collapse')
-    if 'fn:substring' in feats and prop in ('C06',):
-        return ('D30', 'substring() works on byte offsets with unchecked usize arithmetic')
+    if what in ('canonical', 'union_comm', 'union_idem', 'union_assoc', 'union_perm', 'union_elements', 'union_count', 'filter_position', 'spec-mismatch'):
+        if rows and 'axis:namespace' in feats and 'zero-key:Ns' in anomalies:
+            return ('D19', 'namespace axis: namespace nodes have order key 0 (implicit xml) or the key of the inherited declaration')
+        if rows and 'zero-key:At' in anomalies and ('axis:attribute' in feats or 'axis:namespace' in feats):
+            return ('D19', 'attribute axis over an element with DTD-default attributes: they have order key 0')
     return None
 
 # ------------------------------------------------------------------ case cache shared by the checks
@@ -725,10 +727,7 @@ def compare_model(r):
 
 # ------------------------------------------------------------------ findings, accounting, reports
 FINDINGS = {
-    'D18': 'XPath over a document with a processing instruction: XmlNode::order() is 0 for PIs, so they sort before everything and several collapse into one under de-duplication (dom/src/lib.rs, being repaired by builder-dom)',
-    'D21': 'sibling axis in a document whose child lists contain equal order keys (two processing instructions): previous_sibling/next_sibling look the node up by key and cycle or skip (dom/src/lib.rs, being repaired by builder-dom)',
     'D19': 'namespace nodes and DTD-default attributes have order key 0 (or the key of the inherited declaration): on the namespace axis / attribute axis with defaults they sort first and distinct ones collapse',
-    'D30': 'substring() works on byte offsets with unchecked usize arithmetic (scalar library, C09)',
     'D16': 'the document-type node is visible as a child of the root node',
     'D17': 'lang() compares for equality and ignores the xml: namespace',
     'D22b': 'an attribute or namespace node has no parent in the dom view: parent/ancestor/following/preceding from it select nothing',
@@ -814,7 +813,7 @@ def report_failures(run, prop, failing, oracle, max_shrunk=6):
         texts = r['case']['exprs']
         known = classify(prop, rows, texts, cls)
         abstract = isinstance(item.get('doc'), dict)
-        if known and abstract and known[0] in ('D18', 'D21') or (known and abstract and known[0] == 'D19' and not any('namespace::' in t for t in texts)):
+        if known and abstract and known[0] == 'D19' and not any('namespace::' in t for t in texts):
             # counterfactual: the same query on the document without PIs / DTD must not fail
             try:
                 trees = item.get('trees', item['exprs'])
